@@ -191,3 +191,26 @@ PROPS["C13"] = dict(
     e1=[],
     e2=["c13"],
 )
+
+PROPS["C02"] = dict(
+    bounds="token level: every Deserialize impl in the crate x a type-agnostic adversarial corpus (arrays <= 4-5 elements, maps <= 2 entries, definite / indefinite / tagged, discriminants 0..19, map keys 0..25, "
+           "every prefix, items cut short) plus mutants of the type's own valid encodings; entry wrappers: every from_hex / from_bytes / from_json / from_bech32 / from_base58 body in the MIR; "
+           "byte level (E1): every 9-byte buffer for Int, every byte string of 26..34 bytes for the raw hash types, Shelley address byte strings per the C11 harness bounds",
+    assumptions=["nested decoders are opaque and adversarial at token level (they fail, or accept exactly one complete item); each is an entry of its own, so the claim composes by induction on nesting depth",
+                 "cbor_event's Deserializer primitives are modelled at token granularity (a primitive either reads the token of its kind or fails; an item may be 'cut short': its head announces a kind and reading it fails); "
+                 "their own byte-level totality is not decided",
+                 "byte-level leaf parsers reached from a decoder (Address::from_bytes_impl*, public keys, signatures, nested from_bytes of captured bytes, read_bounded_bytes, blake2b) return Ok or Err and do not panic; "
+                 "for addresses, Int and the hash types that is what the E1 harnesses decide, for keys / signatures / Byron attributes it is assumed",
+                 "external crates (hex, bech32, base58, serde_json, num-bigint) return normally: uninterpreted functions whose Result / Option forks both ways",
+                 "termination: every loop of a decoder consumes one token per iteration over a finite stream (the engine's loop bound of 40 is never hit on the corpus; hitting it is reported as truncated); "
+                 "recursion depth (deeply nested Plutus data / native scripts / metadata) is outside the claim",
+                 "re-serialization of accepted values ('serializing that value again produces well-formed CBOR') is C01's obligation, not repeated here; JSON documents (from_json bodies beyond the serde_json call) are outside the claim"],
+    e1=[
+        J("c02_hash_from_bytes", bound="content symbolic, every length 26..34 and 0; Ed25519KeyHash (28) and TransactionHash (32) instantiations of impl_hash_type!", encodes=["impl_hash_type!::from_bytes", "to_bytes"], mem_gb=10, timeout_s=900),
+        J("c14_int_decode_fixed", bound="every 9-byte buffer", encodes=["Int::from_bytes", "read_nint"]),
+        J("c11_strict_parse_base", tier="thorough", bound="length 55..60, header nibble 0..3", encodes=["Address::from_bytes_internal_impl(strict)"], unwind_fn=HL, timeout_s=1800, mem_gb=16),
+        J("c11_strict_parse_short", tier="thorough", bound="every byte string of length 0..34, header != Byron", encodes=["Address::from_bytes_internal_impl(strict)"], unwind_fn=HL, timeout_s=1800, mem_gb=16),
+        J("c11_embedded_verbatim_short", tier="thorough", bound="carried byte string of length 0..34", encodes=["Address::deserialize", "from_bytes_impl_unsafe"], unwind_fn=HL, timeout_s=1800, mem_gb=16),
+    ],
+    e2=["c02"],
+)
